@@ -42,6 +42,8 @@ func main() {
 		genC02(cw, *seed, *tier)
 	case "c16":
 		genC16(cw, *seed, *tier)
+	case "c14":
+		genC14(cw, *seed, *tier)
 	case "c15":
 		genC15(cw, *seed, *tier)
 	case "c20":
